@@ -14,7 +14,7 @@ INVARIANTS
     TypeOK
     C11_Consistent
     C10_Restored
-    C10_BlockRestoredModuloAsymmetry
+    C10_BlockRestored
     C12_Retain
     C13_Revert
     C13_RevertPre
